@@ -1,3 +1,70 @@
-From OV Require Import Rt.RtFsDefs.
-Theorem C09_placeholder : True. Proof. exact I. Qed.
-Print Assumptions C09_placeholder.
+(* C09 - Crash consistency: a killed run is never accepted with flushed events missing; a stream is
+   marked finished only after all its flushed bytes are in their final place.
+   Only statements here; model and spec: Rt/RtFsDefs.v; proofs: Proofs/RtFsProofs.v.
+   The theorems are about the REPAIRED relocation (patches/fix-c10-c09-move-to-final.diff, variant New
+   of the model); the *_refuted_old statements are about the relocation as found (variant Old).
+   proof (partial): kernel/file-system semantics, stdio buffering (any buffer size is covered) and
+   power loss are not exhibited by the model; they are assumptions sampled by lib/checks/c09.py. *)
+From Coq Require Import ZArith List.
+From OV Require Import Rt.RtFsDefs Proofs.RtFsProofs.
+Import ListNotations.
+Local Open Scope Z_scope.
+
+(* direct mode, every program (any number of threads and flushes), every crash point k, every stdio
+   buffer size: if the final directory is accepted, every visible stream holds all bytes its thread
+   had passed to write() before the kill ... *)
+Theorem C09_direct : forall bufsz P rho, wf_program P -> wf_order rho ->
+  C09_sentence1 bufsz Direct P rho /\ C09_sentence2 bufsz Direct P rho.
+Proof. intros; split; [apply C09_s1_all | apply C09_s2_all]; assumption. Qed.
+Print Assumptions C09_direct.
+
+(* OVNI_TMPDIR mode, sentence 1, every readdir order rho of the three directory passes *)
+Theorem C09_tmpdir_s1 : forall bufsz P rho, wf_program P -> wf_order rho ->
+  C09_sentence1 bufsz TmpMode P rho.
+Proof. intros; apply C09_s1_all; assumption. Qed.
+Print Assumptions C09_tmpdir_s1.
+
+(* OVNI_TMPDIR mode, sentence 2: stream.json with finished = 1 is visible in the final directory only
+   when stream.obs there holds every byte the thread ever writes (and all of them are flushed) *)
+Theorem C09_tmpdir_s2 : forall bufsz P rho, wf_program P -> wf_order rho ->
+  C09_sentence2 bufsz TmpMode P rho.
+Proof. intros; apply C09_s2_all; assumption. Qed.
+Print Assumptions C09_tmpdir_s2.
+
+(* the relocation as found violates both sentences (witness replayed by lib/checks/c09.py) *)
+Theorem C09_tmpdir_s2_refuted_old :
+  exists bufsz P rho k th, wf_program P /\ wf_order rho /\ In th P /\
+    let s := apply_prefix bufsz k (trace_of_program_v Old TmpMode P rho) in
+    json_finished (content s (PFile Fin (th_tid th) Json)) = true /\
+    files s (PFile Fin (th_tid th) Obs) <> Some (all_bytes th).
+Proof. exact RtFsProofs.C09_tmpdir_s2_refuted_old. Qed.
+Print Assumptions C09_tmpdir_s2_refuted_old.
+
+Theorem C09_tmpdir_s1_refuted_old :
+  exists bufsz P rho k t, wf_program P /\ wf_order rho /\ In t (tids P) /\
+    let s := apply_prefix bufsz k (trace_of_program_v Old TmpMode P rho) in
+    emu_ok s Fin (tids P) = true /\ visible s Fin t = true /\
+    is_prefix (flushed_of (firstn k (trace_of_program_v Old TmpMode P rho)) t) (content s (PFile Fin t Obs)) = false.
+Proof. exact RtFsProofs.C09_tmpdir_s1_refuted_old. Qed.
+Print Assumptions C09_tmpdir_s1_refuted_old.
+
+(* non-vacuity: the hypotheses are met by a real state - after the complete run of a one-thread program
+   (two flushes) in OVNI_TMPDIR mode the final directory is accepted, the stream is visible and finished *)
+Example C09_nonvacuous_tmpdir :
+  let s := apply_prefix 4096 1000 (trace_of_program TmpMode P_w rho_json_first) in
+  emu_ok s Fin (tids P_w) = true /\ visible s Fin 5 = true /\
+  json_finished (content s (PFile Fin 5 Json)) = true /\
+  flushed TmpMode P_w rho_json_first 1000 5 = all_bytes th_w.
+Proof. cbv zeta. repeat split; vm_compute; reflexivity. Qed.
+
+Example C09_nonvacuous_direct :
+  let s := apply_prefix 4096 1000 (trace_of_program Direct P_w rho_obs_first) in
+  emu_ok s Fin (tids P_w) = true /\ visible s Fin 5 = true /\
+  json_finished (content s (PFile Fin 5 Json)) = true.
+Proof. cbv zeta. repeat split; vm_compute; reflexivity. Qed.
+
+(* ... and a crash point at which the stream is visible but not accepted (metadata without finished) *)
+Example C09_rejected_midway :
+  let s := apply_prefix 4096 12 (trace_of_program Direct P_w rho_obs_first) in
+  visible s Fin 5 = true /\ emu_ok s Fin (tids P_w) = false.
+Proof. cbv zeta. split; vm_compute; reflexivity. Qed.
